@@ -35,6 +35,8 @@ structure SrvSt where
   /-- C05: maximum of the announcements accepted so far, and its last announcer -/
   annMax : Option U128 := none
   annMaster : Option Nat := none
+  /-- the id each session announced last (accepted announcements), tracked by the driver itself -/
+  annLast : Map Nat U128 := []
   /-- C06: per session, ids sent and results received -/
   sent : Map Nat (List Nat) := []
   got : Map Nat (List (Nat × AftStatus)) := []
@@ -221,6 +223,7 @@ def handleSrvMsg (st : SrvSt) (c : Nat) (m : Msg) (ops : List Op) (resps : List 
           | none => true
           | some mx => U128.le mx e
         let st := if newMax then { st with annMax := some e, annMaster := some c } else st
+        let st := { st with annLast := st.annLast.insert c e }
         match resps with
         | [.elec cur] =>
           if cur = st.annMax then st
@@ -243,6 +246,10 @@ def handleSrvMsg (st : SrvSt) (c : Nat) (m : Msg) (ops : List Op) (resps : List 
       let st := if l.any (fun e => acked.any (fun a => a.1 == e.1.id) && (e.1.elec != st.annMax || st.annMaster != some c))
         then st.monfail "c04" s!"operation of session {c} acknowledged although its election id is not the highest announced ({showElec st.annMax}) or the session is not its last announcer"
         else st
+      -- "the id that session last announced", again judged on the driver's own record
+      let st := match l.find? (fun e => acked.any (fun a => a.1 == e.1.id) && e.1.elec != st.annLast.get? c) with
+        | some e => st.monfail "c04" s!"operation {e.1.id} of session {c} acknowledged although its election id {showElec e.1.elec} is not the id that session last announced ({showElec (st.annLast.get? c)})"
+        | none => st
       let malformedOnly := l.all (fun e => e.1.cls != Cls.wf || e.1.ty == OpType.invalid || e.1.ni == "")
       let st := if malformedOnly && l.any (fun e => acked.any (fun a => a.1 == e.1.id))
         then st.monfail "c12" "a malformed operation was acknowledged as programmed" else st
@@ -352,7 +359,10 @@ def handleSrvFlush (st : SrvSt) (ni : Server.NiSel) (el : Server.FlushElec) (cod
       { st with rs := rs, flushedNIs := some nis }
     | _, _ =>
       let st := if code = "0" then st.monfail "c08" "a flush that must be rejected was answered OK" else st
-      { st with expectUnchanged := some "c08" }
+      -- C12 monitor: a Flush naming no instance, the empty name or an unknown instance is malformed
+      let st := if code = "0" && target.isNone
+        then st.monfail "c12" "a malformed Flush request (no, empty or unknown network instance) was answered OK" else st
+      { st with expectUnchanged := some (if target.isNone then "c08+c12" else "c08") }
   let st := st.covr (if code = "0" then "flush.ok" else "flush.rejected")
   if st.rs.diverged then st else
   let srv := { st.srv with rib := st.rs.model }
@@ -385,7 +395,8 @@ def handleSrvGet (st : SrvSt) (ni : Server.NiSel) (aft : Nat) (failAfter : Nat) 
       | .name n => if n = "" || !(st.rs.model.nis.contains n) then none
                    else some (st.rs.spec.filter (fun e => e.1.1 == n && a.matches e.1.2))
   let st := if !complete then st else match scope with
-    | none => if code = "0" then st.monfail "c07" "an invalid Get request was answered OK" else st
+    | none =>
+      if code = "0" then (st.monfail "c07" "an invalid Get request was answered OK").monfail "c12" "a malformed Get request (empty or unknown network instance, unsupported table) was answered OK" else st
     | some want =>
       if code ≠ "0" then st.monfail "c07" s!"a valid Get was answered with code {code}"
       else if !(permEq (want.map (·.1)) (ents.map (·.1))) then
@@ -409,13 +420,14 @@ def handleSrvGet (st : SrvSt) (ni : Server.NiSel) (aft : Nat) (failAfter : Nat) 
 def afterObs (st : SrvSt) (elec : Option U128) (master : Option Nat) (sess : List ObsSess) : SrvSt :=
   let st := match st.expectUnchanged with
     | none => st
-    | some mon =>
+    | some mons =>
+      (mons.splitOn "+").foldl (fun st mon =>
       let st := if mapEq st.prevEnts st.rs.implEnts then st
         else st.monfail mon "installed entries changed although the request had to be rejected (or was a disconnect)"
       let st := if permEq st.prevPend st.rs.implPend then st
         else st.monfail mon "held operations changed although the request had to be rejected (or was a disconnect)"
       if elec = st.implElec then st
-      else st.monfail mon s!"election id changed from {showElec st.implElec} to {showElec elec} although the request had to be rejected (or was a disconnect)"
+      else st.monfail mon s!"election id changed from {showElec st.implElec} to {showElec elec} although the request had to be rejected (or was a disconnect)") st
   let st := match st.flushedNIs with
     | none => st
     | some nis =>
